@@ -9,7 +9,8 @@
 //! * `sqlite-concurrent` / `sqlite-worker` (C17): several handles (threads and child processes)
 //!   on one SQLite directory.
 #![allow(clippy::too_many_arguments)]
-use crate::model::{DbState, TIME_BASE};
+use crate::model::{ver_index, DbState, TIME_BASE};
+use crate::tap::{read_state, AnyStorage, FailKind, Tap};
 use crate::{arg, local_block_on};
 use chrono::{DateTime, TimeZone, Utc};
 use serde_json::{json, Value};
@@ -19,7 +20,8 @@ use std::path::{Path, PathBuf};
 use std::sync::{Arc, Mutex};
 use taskchampion::storage::inmemory::InMemoryStorage;
 use taskchampion::storage::{AccessMode, Storage, StorageTxn, TaskMap};
-use taskchampion::{Operation, SqliteStorage, Uuid};
+use taskchampion::server::{GetVersionResult, Server};
+use taskchampion::{Operation, Replica, ServerConfig, SqliteStorage, Uuid};
 
 pub const NOVAL: &str = "~";
 
@@ -27,6 +29,10 @@ pub fn main(args: &[String]) {
     let cmd = args.get(1).map(|s| s.as_str()).unwrap_or("");
     match cmd {
         "storage-replay" => storage_replay(args),
+        "sqlite-kill" => kill_main(args),
+        "sqlite-child" => child_main(args),
+        "sqlite-concurrent" => concurrent_main(args),
+        "sqlite-worker" => worker_main(args),
         _ => {
             eprintln!("stordrv: unknown sub-command {cmd}");
             std::process::exit(2);
@@ -459,6 +465,8 @@ fn rewrite_legacy(dir: &Path, ver: &str, sqlite3: &str) -> Result<(), String> {
 
 struct ReplayCfg {
     sqlite3: Option<String>,
+    /// directory holding an empty database created by SqliteStorage::new
+    template: PathBuf,
 }
 
 async fn run_stimulus(b: &Value, dir: &Path, cfg: &ReplayCfg, log: Arc<Mutex<Vec<Value>>>) {
@@ -466,11 +474,23 @@ async fn run_stimulus(b: &Value, dir: &Path, cfg: &ReplayCfg, log: Arc<Mutex<Vec
     let valclass = b["valclass"].as_str().unwrap_or("ascii");
     let mut sm = SM::new(valclass);
     let emit = |v: Value| log.lock().unwrap().push(v);
-    emit(json!({"a":"Reset","id":b["id"].clone(),"backend":backend,"valclass":valclass}));
+    emit(json!({"a":"Reset","id":b["id"].clone(),"backend":backend,"valclass":valclass,
+                "check":b["check"].as_str().unwrap_or("-")}));
     let sql = backend == "sqlite";
     let mut storage: Box<dyn Storage> = if sql {
         let _ = std::fs::remove_dir_all(dir);
-        match open_sqlite(dir, false, true).await {
+        // most databases start as a copy of an empty database that SqliteStorage itself created
+        // (creating the schema costs more than everything else a short stimulus does); every
+        // 16th stimulus, and the first of each job, creates its database from nothing
+        let fresh = b["id"].as_u64().unwrap_or(0) % 16 == 0;
+        let tpl = cfg.template.join("taskchampion.sqlite3");
+        let mut create = true;
+        if !fresh && tpl.exists() {
+            std::fs::create_dir_all(dir).unwrap();
+            std::fs::copy(&tpl, dir.join("taskchampion.sqlite3")).unwrap();
+            create = false;
+        }
+        match open_sqlite(dir, false, create).await {
             Ok(s) => Box::new(s),
             Err(e) => {
                 emit(json!({"a":"OpenFailed","msg":e}));
@@ -583,9 +603,12 @@ async fn run_stimulus(b: &Value, dir: &Path, cfg: &ReplayCfg, log: Arc<Mutex<Vec
 fn storage_replay(args: &[String]) {
     let inp = arg(args, "--in").expect("--in");
     let out = arg(args, "--out").expect("--out");
-    let dir = PathBuf::from(arg(args, "--dir").expect("--dir"));
+    let dir = match arg(args, "--dir") {
+        Some(d) => PathBuf::from(d),
+        None => Path::new(&out).parent().unwrap_or(Path::new(".")).join("storage-dbs"),
+    };
     let jobs: usize = arg(args, "--jobs").and_then(|j| j.parse().ok()).unwrap_or(4);
-    let sqlite3 = arg(args, "--sqlite3");
+    let sqlite3 = Some(arg(args, "--sqlite3").unwrap_or_else(|| "sqlite3".to_string()));
     let f = std::io::BufReader::new(std::fs::File::open(inp).unwrap());
     let stimuli: Vec<Value> = f
         .lines()
@@ -606,8 +629,16 @@ fn storage_replay(args: &[String]) {
         let dir = dir.join(format!("job{j}"));
         let sqlite3 = sqlite3.clone();
         handles.push(std::thread::spawn(move || {
-            let cfg = ReplayCfg { sqlite3 };
+            let cfg = ReplayCfg { sqlite3, template: dir.join("template") };
             let rt = tokio::runtime::Builder::new_current_thread().enable_all().build().unwrap();
+            if stimuli.iter().any(|b| b["backend"].as_str() == Some("sqlite")) {
+                let t = cfg.template.clone();
+                let local = tokio::task::LocalSet::new();
+                local.block_on(&rt, async move {
+                    let s = open_sqlite(&t, false, true).await.expect("template database");
+                    drop(s);
+                });
+            }
             loop {
                 let k = {
                     let mut g = next.lock().unwrap();
@@ -652,4 +683,720 @@ fn storage_replay(args: &[String]) {
         }
     }
     eprintln!("replayed {n} stimuli, {nev} events");
+}
+
+// ------------------------------------------------------------------------------------------
+// C06: replica actions in a child process that is stopped at a chosen storage call
+
+/// The abstract state in a SQLite replica directory, read through a fresh handle.
+async fn read_dir_state(dir: &Path) -> Result<DbState, String> {
+    let mut s = open_sqlite(dir, false, false).await?;
+    let mut t = s.txn().await.map_err(|e| format!("{e:#}"))?;
+    let st = read_state(t.as_mut()).await.map_err(|e| format!("{e:#}"))?;
+    drop(t);
+    drop(s);
+    Ok(st)
+}
+
+/// The ids of the versions held by the local server in `dir`, oldest first.
+async fn chain_ids(dir: &Path) -> Vec<Uuid> {
+    let mut ids = vec![];
+    if !dir.join("taskchampion-sync-server.sqlite3").exists() && std::fs::read_dir(dir).map(|d| d.count()).unwrap_or(0) == 0 {
+        return ids;
+    }
+    let mut srv = match (ServerConfig::Local { server_dir: dir.to_path_buf() }).into_server().await {
+        Ok(s) => s,
+        Err(_) => return ids,
+    };
+    let mut parent = Uuid::nil();
+    for _ in 0..10_000 {
+        match srv.get_child_version(parent).await {
+            Ok(GetVersionResult::Version { version_id, .. }) => {
+                ids.push(version_id);
+                parent = version_id;
+            }
+            _ => break,
+        }
+    }
+    ids
+}
+
+fn copy_tree(src: &Path, dst: &Path) {
+    let _ = std::fs::remove_dir_all(dst);
+    std::fs::create_dir_all(dst).unwrap();
+    for e in std::fs::read_dir(src).unwrap() {
+        let e = e.unwrap();
+        let p = e.path();
+        let d = dst.join(e.file_name());
+        if p.is_dir() {
+            copy_tree(&p, &d);
+        } else {
+            std::fs::copy(&p, &d).unwrap();
+        }
+    }
+}
+
+fn state_json(sm: &SM, ids: &[Uuid], d: &DbState) -> Value {
+    sm.db_to_json(d, json!(ver_index(ids, d.base)))
+}
+
+/// raw form used between child and parent: base as a uuid string
+fn state_raw(sm: &SM, d: &DbState) -> Value {
+    sm.db_to_json(d, json!(d.base.to_string()))
+}
+
+fn raw_to_indexed(raw: &Value, ids: &[Uuid]) -> Value {
+    let mut v = raw.clone();
+    let b = Uuid::parse_str(raw["base"].as_str().unwrap_or("")).unwrap_or(Uuid::nil());
+    v["base"] = json!(ver_index(ids, b));
+    v
+}
+
+/// Perform one action (Edit / Undo / Rebuild / Sync) on a replica; returns (result, fetched
+/// undo list as JSON).
+async fn do_action(
+    rep: &mut Replica<Tap>,
+    server_dir: &Path,
+    act: &Value,
+    sm: &mut SM,
+) -> (String, Value) {
+    let kind = act["kind"].as_str().unwrap();
+    let classify = |e: &taskchampion::Error| {
+        let m = format!("{e:#}");
+        if m.contains("injected") { "injected".to_string() } else { format!("error: {m}") }
+    };
+    match kind {
+        "Edit" => {
+            let ops: Vec<Operation> =
+                act["ops"].as_array().unwrap().iter().map(|j| sm.op_from_json(j)).collect();
+            match rep.commit_operations(ops).await {
+                Ok(()) => ("ok".into(), json!([])),
+                Err(e) => (classify(&e), json!([])),
+            }
+        }
+        // self-test of the check only: the batch committed in two storage transactions
+        "EditSplit" => {
+            let ops: Vec<Operation> =
+                act["ops"].as_array().unwrap().iter().map(|j| sm.op_from_json(j)).collect();
+            let (a, b) = ops.split_at(ops.len() / 2);
+            if let Err(e) = rep.commit_operations(a.to_vec()).await {
+                return (classify(&e), json!([]));
+            }
+            match rep.commit_operations(b.to_vec()).await {
+                Ok(()) => ("ok".into(), json!([])),
+                Err(e) => (classify(&e), json!([])),
+            }
+        }
+        "Undo" if act["ops"].as_array().map(|a| !a.is_empty()).unwrap_or(false) => {
+            // a list fetched earlier (possibly stale by now)
+            let ops: Vec<Operation> =
+                act["ops"].as_array().unwrap().iter().map(|j| sm.op_from_json(j)).collect();
+            let oj = sm.ops_to_json(&ops);
+            match rep.commit_reversed_operations(ops).await {
+                Ok(true) => ("true".into(), oj),
+                Ok(false) => ("false".into(), oj),
+                Err(e) => (classify(&e), oj),
+            }
+        }
+        "Undo" => {
+            let ops = match rep.get_undo_operations().await {
+                Ok(o) => o,
+                Err(e) => return (classify(&e), json!([])),
+            };
+            let oj = sm.ops_to_json(&ops);
+            match rep.commit_reversed_operations(ops).await {
+                Ok(true) => ("true".into(), oj),
+                Ok(false) => ("false".into(), oj),
+                Err(e) => (classify(&e), oj),
+            }
+        }
+        "Rebuild" => match rep.rebuild_working_set(act["rn"].as_bool().unwrap_or(false)).await {
+            Ok(()) => ("ok".into(), json!([])),
+            Err(e) => (classify(&e), json!([])),
+        },
+        "Sync" => {
+            std::fs::create_dir_all(server_dir).unwrap();
+            let mut srv: Box<dyn Server> =
+                match (ServerConfig::Local { server_dir: server_dir.to_path_buf() }).into_server().await {
+                    Ok(s) => s,
+                    Err(e) => return (format!("error: server: {e:#}"), json!([])),
+                };
+            match rep.sync(&mut srv, false).await {
+                Ok(()) => ("ok".into(), json!([])),
+                Err(e) => (classify(&e), json!([])),
+            }
+        }
+        other => panic!("unknown action {other}"),
+    }
+}
+
+/// `sqlite-child --dir D --action JSON [--fail-at K --fail-kind kill|killafter|error]
+/// [--linger-ms N]`: opens D/replica wrapped in the tap, performs the action, prints RETURNED
+/// and a one-line JSON report.
+fn child_main(args: &[String]) {
+    let dir = PathBuf::from(arg(args, "--dir").expect("--dir"));
+    let act: Value = serde_json::from_str(&arg(args, "--action").expect("--action")).unwrap();
+    let fail_at: Option<u64> = arg(args, "--fail-at").and_then(|k| k.parse().ok());
+    let kind = match arg(args, "--fail-kind").as_deref() {
+        Some("kill") => Some(FailKind::Kill),
+        Some("killafter") => Some(FailKind::KillAfter),
+        Some("error") => Some(FailKind::Error),
+        _ => None,
+    };
+    let linger: u64 = arg(args, "--linger-ms").and_then(|k| k.parse().ok()).unwrap_or(0);
+    let which = arg(args, "--replica").unwrap_or_else(|| "replica".to_string());
+    local_block_on(async move {
+        let mut sm = SM::new("ascii");
+        let storage = open_sqlite(&dir.join(&which), false, false).await.expect("open replica");
+        let (tap, shared) = Tap::new(AnyStorage::Sql(storage));
+        let mut rep = Replica::new(tap);
+        {
+            let mut sh = shared.lock().unwrap();
+            sh.record = true;
+            sh.calls = 0;
+            sh.commits.clear();
+            sh.fail_at = fail_at.zip(kind);
+        }
+        let (result, undo) = do_action(&mut rep, &dir.join("server"), &act, &mut sm).await;
+        {
+            let mut o = std::io::stdout().lock();
+            writeln!(o, "RETURNED").unwrap();
+            o.flush().unwrap();
+        }
+        let (names, commits) = {
+            let mut sh = shared.lock().unwrap();
+            sh.fail_at = None;
+            sh.record = false;
+            (sh.names.clone(), std::mem::take(&mut sh.commits))
+        };
+        // the state as the same handle sees it afterwards
+        let _ = rep.all_task_uuids().await;
+        let same = shared.lock().unwrap().begin.clone();
+        let commits: Vec<Value> = commits.iter().map(|c| state_raw(&sm, c)).collect();
+        let rep_json = json!({"result": result, "undo": undo, "calls": names,
+            "commits": commits, "same": same.map(|s| state_raw(&sm, &s))});
+        {
+            let mut o = std::io::stdout().lock();
+            writeln!(o, "{}", serde_json::to_string(&rep_json).unwrap()).unwrap();
+            o.flush().unwrap();
+        }
+        if linger > 0 {
+            std::thread::sleep(std::time::Duration::from_millis(linger));
+        }
+        drop(rep);
+    });
+}
+
+struct ChildOut {
+    killed: bool,
+    returned: bool,
+    report: Option<Value>,
+    wall_us: u128,
+}
+
+fn run_child(dir: &Path, act: &Value, fail: Option<(u64, &str)>, linger: u64, kill_after_us: Option<u64>) -> ChildOut {
+    let exe = std::env::current_exe().expect("current_exe");
+    let mut cmd = std::process::Command::new(exe);
+    cmd.arg("sqlite-child").arg("--dir").arg(dir).arg("--action").arg(act.to_string());
+    if let Some((k, kind)) = fail {
+        cmd.arg("--fail-at").arg(k.to_string()).arg("--fail-kind").arg(kind);
+    }
+    if linger > 0 {
+        cmd.arg("--linger-ms").arg(linger.to_string());
+    }
+    cmd.stdin(std::process::Stdio::null())
+        .stdout(std::process::Stdio::piped())
+        .stderr(std::process::Stdio::null());
+    let t0 = std::time::Instant::now();
+    let mut child = cmd.spawn().expect("spawn child");
+    if let Some(us) = kill_after_us {
+        std::thread::sleep(std::time::Duration::from_micros(us));
+        unsafe {
+            libc::kill(child.id() as i32, libc::SIGKILL);
+        }
+    }
+    let out = child.wait_with_output().expect("wait child");
+    let wall_us = t0.elapsed().as_micros();
+    use std::os::unix::process::ExitStatusExt;
+    let killed = out.status.signal() == Some(libc::SIGKILL);
+    let text = String::from_utf8_lossy(&out.stdout);
+    let mut returned = false;
+    let mut report = None;
+    for line in text.lines() {
+        if line == "RETURNED" {
+            returned = true;
+        } else if line.starts_with('{') {
+            report = serde_json::from_str(line).ok();
+        }
+    }
+    ChildOut { killed, returned, report, wall_us }
+}
+
+/// operations of a stimulus (old values possibly as an object) in trace form (pairs)
+fn ops_as_pairs(ops: &Value) -> Value {
+    let mut sm = SM::new("ascii");
+    let v: Vec<Value> = ops
+        .as_array()
+        .map(|a| a.iter().map(|j| { let o = sm.op_from_json(j); sm.op_to_json(&o) }).collect())
+        .unwrap_or_default();
+    Value::Array(v)
+}
+
+/// the storage transactions of an action, as labels for the commits it makes
+fn acts_of(action: &Value, undo: &Value, ncommits: usize) -> Vec<Value> {
+    let kind = action["kind"].as_str().unwrap();
+    let main = match kind {
+        "Edit" | "EditSplit" => json!({"kind":"Edit","ops":ops_as_pairs(&action["ops"]),"rn":false}),
+        "Undo" => json!({"kind":"Undo","ops":undo.clone(),"rn":false}),
+        "Rebuild" => json!({"kind":"Rebuild","ops":[],"rn":action["rn"].as_bool().unwrap_or(false)}),
+        _ => json!({"kind":"Sync","ops":[],"rn":false}),
+    };
+    let mut v = vec![];
+    for i in 0..ncommits {
+        if i == 0 {
+            v.push(main.clone());
+        } else {
+            v.push(json!({"kind":"Rebuild","ops":[],"rn":false}));
+        }
+    }
+    v
+}
+
+/// One stimulus: prior steps, then the action under test interrupted at every storage call.
+async fn kill_stimulus(b: &Value, root: &Path, lines: &mut Vec<Value>, stats: &mut HashMap<String, u64>) {
+    let mut sm = SM::new("ascii");
+    let id = b["id"].clone();
+    let base = root.join("base");
+    let _ = std::fs::remove_dir_all(root);
+    std::fs::create_dir_all(base.join("server")).unwrap();
+    // ---- prior history, in process
+    {
+        let mut reps: HashMap<String, Replica<Tap>> = HashMap::new();
+        for s in b["prior"].as_array().unwrap() {
+            let r = s["r"].as_str().unwrap_or("A").to_string();
+            if !reps.contains_key(&r) {
+                let d = base.join(if r == "A" { "replica".to_string() } else { format!("replica{r}") });
+                let st = open_sqlite(&d, false, true).await.expect("create replica");
+                let (tap, sh) = Tap::new(AnyStorage::Sql(st));
+                sh.lock().unwrap().quiet = true;
+                reps.insert(r.clone(), Replica::new(tap));
+            }
+            let rep = reps.get_mut(&r).unwrap();
+            let (res, _) = do_action(rep, &base.join("server"), s, &mut sm).await;
+            if res.starts_with("error") {
+                lines.push(json!({"a":"ToolError","id":id,"msg":format!("prior step failed: {res}")}));
+                return;
+            }
+        }
+        if !reps.contains_key("A") {
+            let st = open_sqlite(&base.join("replica"), false, true).await.expect("create replica");
+            drop(st);
+        }
+        drop(reps);
+    }
+    let action = &b["action"];
+    let s0 = read_dir_state(&base.join("replica")).await.expect("read prior state");
+    let ids0 = chain_ids(&base.join("server")).await;
+    let s0j = state_json(&sm, &ids0, &s0);
+
+    // ---- reference run
+    let refd = root.join("ref");
+    copy_tree(&base, &refd);
+    let r = run_child(&refd, action, None, 0, None);
+    let Some(rep) = r.report.clone() else {
+        lines.push(json!({"a":"ToolError","id":id,"msg":"reference child gave no report"}));
+        return;
+    };
+    let ids_ref = chain_ids(&refd.join("server")).await;
+    let calls: Vec<String> =
+        rep["calls"].as_array().unwrap().iter().map(|x| x.as_str().unwrap().to_string()).collect();
+    let posts: Vec<Value> =
+        rep["commits"].as_array().unwrap().iter().map(|c| raw_to_indexed(c, &ids_ref)).collect();
+    let acts = acts_of(action, &rep["undo"], posts.len());
+    let fin = read_dir_state(&refd.join("replica")).await.expect("read reference state");
+    let finj = state_json(&sm, &ids_ref, &fin);
+    // the uninterrupted run: every transaction a complete action, the result durable
+    lines.push(json!({"a":"Reset","id":id,"run":"reference","action":action,"result":rep["result"],
+                      "calls":calls}));
+    lines.push(json!({"a":"Open","db":s0j}));
+    for (a, p) in acts.iter().zip(posts.iter()) {
+        lines.push(json!({"a":"Begin","h":"h1","act":a}));
+        lines.push(json!({"a":"Commit","h":"h1","post":p}));
+    }
+    if let Some(same) = rep.get("same").filter(|s| !s.is_null()) {
+        lines.push(json!({"a":"Observe","via":"same handle","obs":raw_to_indexed(same, &ids_ref)}));
+    }
+    lines.push(json!({"a":"Observe","via":"fresh handle after exit","obs":finj}));
+    *stats.entry("reference_runs".into()).or_insert(0) += 1;
+
+    // ---- stops and failures at every storage call index
+    let n = calls.len() as u64;
+    let commit_idx: Vec<u64> =
+        calls.iter().enumerate().filter(|(_, c)| *c == "commit").map(|(i, _)| i as u64 + 1).collect();
+    let kinds: Vec<String> = b["kinds"]
+        .as_array()
+        .map(|a| a.iter().map(|x| x.as_str().unwrap().to_string()).collect())
+        .unwrap_or_else(|| vec!["kill".into(), "killafter".into(), "error".into()]);
+    let stride = b["stride"].as_u64().unwrap_or(1).max(1);
+    let offset = b["id"].as_u64().unwrap_or(0) % stride;
+    for k in 1..=n {
+        for kind in &kinds {
+            // with a stride only every stride-th index is used, but always the commits and
+            // their neighbours
+            let near_commit = commit_idx.iter().any(|c| k + 1 >= *c && k <= *c + 1);
+            if !near_commit && k % stride != offset {
+                continue;
+            }
+            let d = root.join("run");
+            copy_tree(&base, &d);
+            let o = run_child(&d, action, Some((k, kind.as_str())), 0, None);
+            let ids = chain_ids(&d.join("server")).await;
+            let obs = match read_dir_state(&d.join("replica")).await {
+                Ok(s) => state_json(&sm, &ids, &s),
+                Err(e) => {
+                    lines.push(json!({"a":"Reset","id":id,"run":format!("{kind}@{k}")}));
+                    lines.push(json!({"a":"Unreadable","msg":e}));
+                    continue;
+                }
+            };
+            // transactions completed before the stop: commits that had returned
+            let done = commit_idx
+                .iter()
+                .filter(|c| **c < k || (**c == k && kind == "killafter"))
+                .count();
+            // a stop after the k-th call returned leaves a transaction open unless that call
+            // was its commit; a stop before the k-th call is always inside a transaction
+            let inside = !(kind == "killafter" && commit_idx.contains(&k));
+            lines.push(json!({"a":"Reset","id":id,"run":format!("{kind}@{k}"),"call":calls[(k-1) as usize],
+                              "died":o.killed}));
+            lines.push(json!({"a":"Open","db":s0j}));
+            for i in 0..done.min(acts.len()) {
+                lines.push(json!({"a":"Begin","h":"h1","act":acts[i]}));
+                lines.push(json!({"a":"Commit","h":"h1","post":posts[i]}));
+            }
+            if kind == "error" {
+                // the call returned an error: the action returns it, the transaction is dropped
+                if done < acts.len() {
+                    lines.push(json!({"a":"Begin","h":"h1","act":acts[done]}));
+                    lines.push(json!({"a":"Drop","h":"h1"}));
+                }
+                let res = o.report.as_ref().map(|r| r["result"].clone()).unwrap_or(json!("?"));
+                if res != json!("injected") {
+                    lines.push(json!({"a":"Unexpected","what":"the action did not return the injected error","result":res}));
+                }
+                if let Some(same) = o.report.as_ref().and_then(|r| r.get("same")).filter(|s| !s.is_null()) {
+                    lines.push(json!({"a":"Observe","via":"same handle","obs":raw_to_indexed(same, &ids)}));
+                }
+                lines.push(json!({"a":"Observe","via":"fresh handle after exit","obs":obs}));
+                *stats.entry("error_returns".into()).or_insert(0) += 1;
+            } else {
+                if !o.killed {
+                    lines.push(json!({"a":"Unexpected","what":"child was not stopped","k":k}));
+                }
+                if inside && done < acts.len() {
+                    lines.push(json!({"a":"Begin","h":"h1","act":acts[done]}));
+                } else if inside {
+                    // a read-only transaction after the last commit (none in these actions)
+                    lines.push(json!({"a":"Begin","h":"h1","act":{"kind":"Rebuild","ops":[],"rn":false}}));
+                }
+                lines.push(json!({"a":"Kill","h":"h1"}));
+                lines.push(json!({"a":"Recover","h":"h1","obs":obs}));
+                *stats.entry("kills_at_call".into()).or_insert(0) += 1;
+            }
+        }
+    }
+
+    // ---- stops at random instants
+    let nasync = b["async"].as_u64().unwrap_or(0);
+    let mut seed = b["seed"].as_u64().unwrap_or(1).wrapping_mul(6364136223846793005).wrapping_add(id.as_u64().unwrap_or(0));
+    let span = (r.wall_us as u64).max(2000);
+    for _ in 0..nasync {
+        seed = seed.wrapping_mul(6364136223846793005).wrapping_add(1442695040888963407);
+        let us = (seed >> 33) % (span + span / 4);
+        let d = root.join("run");
+        copy_tree(&base, &d);
+        let o = run_child(&d, action, None, 50, Some(us));
+        let ids = chain_ids(&d.join("server")).await;
+        let obs = match read_dir_state(&d.join("replica")).await {
+            Ok(s) => state_json(&sm, &ids, &s),
+            Err(e) => {
+                lines.push(json!({"a":"Reset","id":id,"run":format!("async@{us}us")}));
+                lines.push(json!({"a":"Unreadable","msg":e}));
+                continue;
+            }
+        };
+        lines.push(json!({"a":"Reset","id":id,"run":format!("async@{us}us"),"died":o.killed}));
+        lines.push(json!({"a":"Open","db":s0j}));
+        lines.push(json!({"a":"KillAsync","h":"h1","acts":acts,"posts":posts,"reported":o.returned}));
+        lines.push(json!({"a":"Recover","h":"h1","obs":obs}));
+        *stats.entry(if o.returned { "async_kills_after_return" } else { "async_kills_before_return" }.into()).or_insert(0) += 1;
+    }
+    let _ = std::fs::remove_dir_all(root);
+}
+
+fn kill_main(args: &[String]) {
+    let inp = arg(args, "--in").expect("--in");
+    let out = arg(args, "--out").expect("--out");
+    let dir = PathBuf::from(arg(args, "--dir").expect("--dir"));
+    let jobs: usize = arg(args, "--jobs").and_then(|j| j.parse().ok()).unwrap_or(4);
+    let f = std::io::BufReader::new(std::fs::File::open(inp).unwrap());
+    let stimuli: Vec<Value> = f
+        .lines()
+        .map(|l| l.unwrap())
+        .filter(|l| !l.trim().is_empty())
+        .map(|l| serde_json::from_str(&l).expect("stimulus json"))
+        .collect();
+    let n = stimuli.len();
+    let stimuli = Arc::new(stimuli);
+    let next = Arc::new(Mutex::new(0usize));
+    let results: Arc<Mutex<Vec<Option<Vec<Value>>>>> = Arc::new(Mutex::new(vec![None; n]));
+    let stats: Arc<Mutex<HashMap<String, u64>>> = Arc::new(Mutex::new(HashMap::new()));
+    let mut handles = vec![];
+    for j in 0..jobs.max(1) {
+        let (stimuli, next, results, stats) = (stimuli.clone(), next.clone(), results.clone(), stats.clone());
+        let dir = dir.join(format!("job{j}"));
+        handles.push(std::thread::spawn(move || loop {
+            let k = {
+                let mut g = next.lock().unwrap();
+                let k = *g;
+                *g += 1;
+                k
+            };
+            if k >= stimuli.len() {
+                break;
+            }
+            let mut lines = vec![];
+            let mut st = HashMap::new();
+            local_block_on(kill_stimulus(&stimuli[k], &dir, &mut lines, &mut st));
+            results.lock().unwrap()[k] = Some(lines);
+            let mut g = stats.lock().unwrap();
+            for (k, v) in st {
+                *g.entry(k).or_insert(0) += v;
+            }
+        }));
+    }
+    for h in handles {
+        h.join().unwrap();
+    }
+    let mut o = std::io::BufWriter::new(std::fs::File::create(out).unwrap());
+    for r in results.lock().unwrap().iter() {
+        for l in r.as_ref().expect("result") {
+            writeln!(o, "{}", serde_json::to_string(l).unwrap()).unwrap();
+        }
+    }
+    println!("{}", serde_json::to_string(&*stats.lock().unwrap()).unwrap());
+}
+
+// ------------------------------------------------------------------------------------------
+// C17: several handles on one directory
+
+fn lcg(seed: &mut u64) -> u64 {
+    *seed = seed.wrapping_mul(6364136223846793005).wrapping_add(1442695040888963407);
+    *seed >> 33
+}
+
+/// The work of one handle: `iters` actions chosen by the seed; one JSON event per action.
+async fn worker_run(dir: &Path, wid: u64, iters: u64, seed: u64, go: Option<PathBuf>) -> Vec<Value> {
+    let sm = SM::new("ascii");
+    let mut sm2 = SM::new("ascii");
+    let mut ev = vec![];
+    let storage = match open_sqlite(dir, false, false).await {
+        Ok(s) => s,
+        Err(e) => {
+            ev.push(json!({"w":wid,"seq":0,"a":"open","ok":false,"err":e}));
+            return ev;
+        }
+    };
+    let mut rep = Replica::new(storage);
+    let mut rng = seed.wrapping_mul(1000003).wrapping_add(wid * 7919 + 1);
+    // all handles are opened first; the work starts when the starting file appears
+    if let Some(go) = go {
+        let t0 = std::time::Instant::now();
+        while !go.exists() && t0.elapsed().as_secs() < 20 {
+            std::thread::sleep(std::time::Duration::from_micros(200));
+        }
+    }
+    for j in 1..=iters {
+        let x = lcg(&mut rng) % 100;
+        if x < 55 {
+            let u = format!("u{}", wid * 100 + j);
+            let opsj = json!([
+                {"k":"P","u":"-","p":"-","v":"-","t":0,"o":[]},
+                {"k":"C","u":u,"p":"-","v":"-","t":0,"o":[]},
+                {"k":"U","u":u,"p":"status","v":"pending","t":1,"o":[]},
+                {"k":"U","u":u,"p":"tag","v":format!("w{wid}b{j}"),"t":1,"o":[]},
+            ]);
+            let ops: Vec<Operation> = opsj.as_array().unwrap().iter().map(|o| sm2.op_from_json(o)).collect();
+            let r = rep.commit_operations(ops).await;
+            ev.push(json!({"w":wid,"seq":j,"a":"commit","ops":opsj,"ok":r.is_ok(),
+                           "err":r.err().map(|e| format!("{e:#}")).unwrap_or_default()}));
+        } else if x < 72 {
+            match rep.get_undo_operations().await {
+                Ok(ops) => {
+                    let oj = sm.ops_to_json(&ops);
+                    let r = rep.commit_reversed_operations(ops).await;
+                    match r {
+                        Ok(b) => ev.push(json!({"w":wid,"seq":j,"a":"undo","ops":oj,"ok":true,"res":b})),
+                        Err(e) => ev.push(json!({"w":wid,"seq":j,"a":"undo","ops":oj,"ok":false,"err":format!("{e:#}")})),
+                    }
+                }
+                Err(e) => ev.push(json!({"w":wid,"seq":j,"a":"fetch","ok":false,"err":format!("{e:#}")})),
+            }
+        } else if x < 85 {
+            let rn = x >= 80;
+            let r = rep.rebuild_working_set(rn).await;
+            ev.push(json!({"w":wid,"seq":j,"a":"rebuild","rn":rn,"ok":r.is_ok(),
+                           "err":r.err().map(|e| format!("{e:#}")).unwrap_or_default()}));
+        } else {
+            let t = rep.all_task_data().await.map(|t| t.len());
+            let w = rep.working_set().await.map(|w| w.len());
+            ev.push(json!({"w":wid,"seq":j,"a":"read","ok":t.is_ok() && w.is_ok(),
+                           "ntasks":t.ok().map(|n| n as i64).unwrap_or(-1),
+                           "nws":w.ok().map(|n| n as i64).unwrap_or(-1)}));
+        }
+    }
+    drop(rep);
+    ev
+}
+
+fn worker_main(args: &[String]) {
+    let dir = PathBuf::from(arg(args, "--dir").expect("--dir"));
+    let wid: u64 = arg(args, "--wid").and_then(|x| x.parse().ok()).unwrap_or(1);
+    let iters: u64 = arg(args, "--iters").and_then(|x| x.parse().ok()).unwrap_or(5);
+    let seed: u64 = arg(args, "--seed").and_then(|x| x.parse().ok()).unwrap_or(1);
+    let go = arg(args, "--go").map(PathBuf::from);
+    let ev = local_block_on(worker_run(&dir, wid, iters, seed, go));
+    let mut o = std::io::stdout().lock();
+    for e in ev {
+        writeln!(o, "{}", serde_json::to_string(&e).unwrap()).unwrap();
+    }
+}
+
+/// `sqlite-concurrent --dir D --out trace --runs R --workers W --iters M --mode threads|procs|mixed`
+fn concurrent_main(args: &[String]) {
+    let out = arg(args, "--out").expect("--out");
+    let dir = PathBuf::from(arg(args, "--dir").expect("--dir"));
+    let runs: u64 = arg(args, "--runs").and_then(|x| x.parse().ok()).unwrap_or(10);
+    let iters: u64 = arg(args, "--iters").and_then(|x| x.parse().ok()).unwrap_or(5);
+    let seed0: u64 = arg(args, "--seed").and_then(|x| x.parse().ok()).unwrap_or(1);
+    let wmin: u64 = arg(args, "--wmin").and_then(|x| x.parse().ok()).unwrap_or(2);
+    let wmax: u64 = arg(args, "--wmax").and_then(|x| x.parse().ok()).unwrap_or(8);
+    let mode = arg(args, "--mode").unwrap_or_else(|| "mixed".to_string());
+    let mut o = std::io::BufWriter::new(std::fs::File::create(out).unwrap());
+    let sm = SM::new("ascii");
+    let mut stats: HashMap<String, u64> = HashMap::new();
+    let mut rng = seed0;
+    for run in 0..runs {
+        let d = dir.join(format!("run{run}"));
+        let _ = std::fs::remove_dir_all(&d);
+        // schema creation is not isolated by transactions: the directory is initialised once
+        local_block_on(async {
+            let s = open_sqlite(&d, false, true).await.expect("create");
+            drop(s);
+        });
+        let w = wmin + lcg(&mut rng) % (wmax - wmin + 1);
+        let seed = lcg(&mut rng);
+        let go = dir.join(format!("go{run}"));
+        let _ = std::fs::remove_file(&go);
+        let mut threads = vec![];
+        let mut procs = vec![];
+        for wid in 1..=w {
+            let as_proc = match mode.as_str() {
+                "threads" => false,
+                "procs" => true,
+                _ => wid % 2 == 0,
+            };
+            if as_proc {
+                let exe = std::env::current_exe().unwrap();
+                let child = std::process::Command::new(exe)
+                    .arg("sqlite-worker").arg("--dir").arg(&d)
+                    .arg("--wid").arg(wid.to_string())
+                    .arg("--iters").arg(iters.to_string())
+                    .arg("--seed").arg(seed.to_string())
+                    .arg("--go").arg(&go)
+                    .stdin(std::process::Stdio::null())
+                    .stdout(std::process::Stdio::piped())
+                    .stderr(std::process::Stdio::null())
+                    .spawn()
+                    .expect("spawn worker");
+                procs.push(child);
+            } else {
+                let d2 = d.clone();
+                let g2 = go.clone();
+                threads.push(std::thread::spawn(move || {
+                    local_block_on(worker_run(&d2, wid, iters, seed, Some(g2)))
+                }));
+            }
+        }
+        std::thread::sleep(std::time::Duration::from_millis(if procs.is_empty() { 3 } else { 25 }));
+        std::fs::write(&go, b"go").unwrap();
+        let mut events: Vec<Value> = vec![];
+        for t in threads {
+            events.extend(t.join().expect("worker thread"));
+        }
+        for p in procs {
+            let outp = p.wait_with_output().expect("worker process");
+            for line in String::from_utf8_lossy(&outp.stdout).lines() {
+                if let Ok(v) = serde_json::from_str::<Value>(line) {
+                    events.push(v);
+                }
+            }
+        }
+        // ---- audit through a fresh handle
+        let (dbj, finalj) = local_block_on(async {
+            let s = read_dir_state(&d).await.expect("audit read");
+            let st = open_sqlite(&d, false, false).await.expect("audit open");
+            let mut rep = Replica::new(st);
+            rep.rebuild_working_set(false).await.expect("audit rebuild");
+            drop(rep);
+            let f = read_dir_state(&d).await.expect("audit read 2");
+            (state_json(&sm, &[], &s), state_json(&sm, &[], &f))
+        });
+        let mut commits = vec![];
+        let mut undone = vec![];
+        let mut inconclusive = false;
+        for e in &events {
+            match e["a"].as_str().unwrap_or("") {
+                "commit" => {
+                    commits.push(json!({"w":e["w"],"seq":e["seq"],"ops":e["ops"],"ok":e["ok"]}));
+                    *stats.entry(if e["ok"] == json!(true) { "commits_ok" } else { "commits_failed" }.into()).or_insert(0) += 1;
+                }
+                "undo" => {
+                    if e["ok"] == json!(true) {
+                        if e["res"] == json!(true) {
+                            undone.push(e["ops"].clone());
+                            *stats.entry("undos_applied".into()).or_insert(0) += 1;
+                        } else {
+                            *stats.entry("undos_refused".into()).or_insert(0) += 1;
+                        }
+                    } else {
+                        // the undo may or may not have been committed before the error
+                        inconclusive = true;
+                    }
+                }
+                "rebuild" | "read" => {
+                    *stats.entry(format!("{}s", e["a"].as_str().unwrap())).or_insert(0) += 1;
+                    if e["ok"] != json!(true) {
+                        *stats.entry("failed_reads_or_rebuilds".into()).or_insert(0) += 1;
+                    }
+                }
+                "open" | "fetch" => {
+                    *stats.entry("failed_open_or_fetch".into()).or_insert(0) += 1;
+                }
+                _ => {}
+            }
+        }
+        *stats.entry(format!("runs_with_{w}_handles")).or_insert(0) += 1;
+        if inconclusive {
+            *stats.entry("inconclusive_runs".into()).or_insert(0) += 1;
+        } else {
+            writeln!(o, "{}", json!({"a":"Reset","id":run,"workers":w,"mode":mode,"seed":seed})).unwrap();
+            writeln!(o, "{}", json!({"a":"Audit","db":dbj,"final":finalj,"commits":commits,
+                                     "undone":undone,"events":events})).unwrap();
+            *stats.entry("runs_audited".into()).or_insert(0) += 1;
+        }
+        let _ = std::fs::remove_dir_all(&d);
+        let _ = std::fs::remove_file(&go);
+    }
+    println!("{}", serde_json::to_string(&stats).unwrap());
 }
